@@ -218,7 +218,7 @@ class Layout:
     """Where variables live and what they are called, after a transformation."""
 
     def __init__(self, kinds, reads, place, perm_comp=False, rev_vars=False, rev_eqs=False, rename=0, drop_eq=None, dup_eq=None, drop_init=None, ncomp=None,
-                 init_on_twin=False, long=None):
+                 init_on_twin=False, long=None, pad=0):
         self.kinds, self.place = kinds, place
         self.n = len(kinds)
         self.declared_reads = reads
@@ -228,6 +228,9 @@ class Layout:
         self.perm_comp, self.rev_vars, self.rev_eqs, self.rename = perm_comp, rev_vars, rev_eqs, rename
         self.drop_eq, self.dup_eq, self.drop_init = drop_eq, dup_eq, drop_init
         self.init_on_twin, self.long = init_on_twin, long
+        # pad: unrelated variables added to the first component (1: listed last, 2: listed first): a constant zpk, a computed constant
+        # zpc = zpk + zpk and, in a model with a state, an algebraic zpt = t + zpk; they must not change anything about the others
+        self.pad = pad
         self.has_state = 'S' in kinds
         self.comps = sorted(set(place)) if ncomp is None else list(range(ncomp))
         base = ['v%d' % i for i in range(self.n)]
@@ -339,6 +342,18 @@ class Layout:
                 comp_eqs[c].append(e)
                 if i == self.dup_eq:
                     comp_eqs[c].append(e)
+        if self.pad:
+            pv = ['<variable name="zpk" units="dimensionless" initial_value="0.4"/>', '<variable name="zpc" units="dimensionless"/>']
+            pe = ['<apply><eq/><ci>zpc</ci><apply><plus/><ci>zpk</ci><ci>zpk</ci></apply></apply>']
+            if self.has_state:
+                pv.append('<variable name="zpt" units="dimensionless"/>')
+                pe.append('<apply><eq/><ci>zpt</ci><apply><plus/><ci>%s</ci><ci>zpk</ci></apply></apply>' % self.name_in('t', 0))
+            if self.pad == 1:
+                comp_vars[0] = comp_vars[0] + pv
+                comp_eqs[0] = comp_eqs[0] + pe
+            else:
+                comp_vars[0] = pv + comp_vars[0]
+                comp_eqs[0] = pe + comp_eqs[0]
         parts = []
         order = [0, 1] if not self.perm_comp else [1, 0]
         for c in order:
@@ -368,6 +383,8 @@ class Layout:
         c = next((k for k, v in self.cname.items() if v == comp), None)
         if c is None:
             return None
+        if self.pad and c == 0 and var in ('zpk', 'zpc', 'zpt'):
+            return var
         for i in list(range(self.n)) + (['t'] if self.has_state else []):
             if self.comp_of(i) == c and self.home_name[i] == var:
                 return i
